@@ -163,6 +163,11 @@ const (
 )
 
 func (na *plainMap__Assembler) BeginMap(sizeHint int64) (datamodel.MapAssembler, error) {
+	// Sanity check assembler state: beginning again would drop what was assembled so far
+	//  (and, on a finished assembler, empty the node that has already been handed out).
+	if na.state != maState_initial {
+		panic("misuse")
+	}
 	if sizeHint < 0 {
 		sizeHint = 0
 	}
